@@ -45,6 +45,62 @@ def reaching_def(body, l, at_bb):
     return best
 
 
+def _agg_field(body, pl, at, depth=5):
+    """(operand, block) stored into the field `pl` names, when `pl` is `(l as V).i` / `l.i` and the value of `l` that
+    reaches the use is an aggregate of that variant built in this function (through plain moves), never modified in
+    place or lent out mutably afterwards; None otherwise."""
+    pr = pl['p']
+    variant = None
+    if pr[0][0] == 'downcast':
+        if len(pr) != 2 or pr[1][0] != 'field':
+            return None
+        variant, fld = pr[0][1], pr[1]
+    elif len(pr) == 1:
+        fld = pr[0]
+    else:
+        return None
+    l = pl['l']
+    seen = []
+    while depth > 0:
+        depth -= 1
+        if 1 <= l <= body.arg_count:
+            return None
+        seen.append(l)
+        ds = body.defs().get(l, [])
+        d = ds[0] if len(ds) == 1 else (reaching_def(body, l, at) if at is not None else None)
+        if d is None or d[0] != 'stmt':
+            return None
+        rv = d[3]['rv']
+        if rv['k'] == 'use' and is_place(rv['op']) and not rv['op']['pl']['p']:
+            l, at = rv['op']['pl']['l'], d[1]
+            continue
+        if rv['k'] != 'agg' or rv.get('ak') not in ('adt', 'tuple'):
+            return None
+        if rv.get('ak') == 'adt' and (rv.get('variant') if variant is not None else None) != variant:
+            return None
+        if variant is None and rv.get('ak') == 'adt' and body_adt_is_enum(body, rv):
+            return None
+        ops = rv.get('ops') or []
+        idx = fld[1]
+        if rv.get('ak') == 'adt' and rv.get('fields') and len(fld) > 2 and fld[2] in rv['fields']:
+            idx = rv['fields'].index(fld[2])
+        if not isinstance(idx, int) or idx >= len(ops):
+            return None
+        # nothing writes into the aggregate or borrows it mutably between its construction and the read
+        for bb, si, st in body.stmts():
+            if st['k'] == 'assign' and st['lhs']['p'] and st['lhs']['l'] in seen and st['lhs']['p'][0][0] != 'deref':
+                return None
+            if st['k'] == 'assign' and st['rv']['k'] in ('ref', 'rawptr') and st['rv'].get('bk') != 'shared' and st['rv']['pl']['l'] in seen:
+                return None
+        return ops[idx], d[1]
+    return None
+
+
+def body_adt_is_enum(body, rv):
+    return rv.get('variant') is not None and (getattr(body, 'adt_discr', None) or {}).get((rv.get('adt'), rv.get('variant'))) is not None \
+        and len([1 for (a, v) in body.adt_discr if a == rv.get('adt')]) > 1
+
+
 CONSTS = {}   # named constants of the crate: path -> text of the initialiser (set by Facts)
 
 
@@ -86,6 +142,12 @@ def describe(body, op, depth=6, at=None):
         return '?'
     pl = op['pl']
     l = pl['l']
+    if pl['p'] and pl['p'][0][0] in ('field', 'downcast') and not (1 <= l <= body.arg_count):
+        # a field of an aggregate built in this very function (a command enum constructed by the caller and matched in a
+        # spliced-in helper, a tuple bound to a local and then taken apart): the operand that was put there
+        got = _agg_field(body, pl, at)
+        if got is not None:
+            return describe(body, got[0], depth - 1, at=got[1])
     if pl['p'] and pl['p'][0][0] in ('field', 'downcast') and not (1 <= l <= body.arg_count) \
             and body.local_name(l) is None and len(body.defs().get(l, [])) == 1:
         # projection of a temporary holding a value: describe the value, then the projection
@@ -311,13 +373,16 @@ def explore(body, tracked=None, summaries=None, max_states=20000, on_call=None):
         for s in blk['stmts']:
             if s['k'] == 'assign' and not s['lhs']['p'] and s['rv']['k'] == 'agg' and s['rv'].get('ak') == 'adt':
                 env[('v', s['lhs']['l'])] = s['rv']['variant']
+                env[('va', s['lhs']['l'])] = s['rv'].get('adt')
             elif s['k'] == 'assign' and not s['lhs']['p'] and s['rv']['k'] == 'use' and is_place(s['rv']['op']) and not s['rv']['op']['pl']['p']:
                 # a copy / move of a local whose variant is known on this path (the return slot of a spliced-in helper)
                 lv0 = op_local(s['rv']['op'])
                 if ('v', lv0) in env:
                     env[('v', s['lhs']['l'])] = env[('v', lv0)]
+                    env[('va', s['lhs']['l'])] = env.get(('va', lv0))
                 elif ('v', s['lhs']['l']) in env:
                     del env[('v', s['lhs']['l'])]
+                    env.pop(('va', s['lhs']['l']), None)
             p, var = assign_effect(env, s)
             if p is not None and var is None and s['k'] == 'assign' and s['rv']['k'] == 'use':
                 lv = op_local(s['rv']['op'])
@@ -372,6 +437,10 @@ def explore(body, tracked=None, summaries=None, max_states=20000, on_call=None):
                     # the discriminant of a local whose variant is known on this path (a `?` on the result of a
                     # spliced-in helper: the helper's `Err(..)?` arm and the caller's Continue arm do not combine)
                     env[ck] = STD_VARIANT[env[('v', rv['pl']['l'])]]
+                elif rv['k'] == 'discr' and not rv['pl']['p'] and env.get(('v', rv['pl']['l'])) is not None \
+                        and (getattr(body, 'adt_discr', None) or {}).get((env.get(('va', rv['pl']['l'])), env[('v', rv['pl']['l'])])) is not None:
+                    # ... of any enum of the crate (a command enum built by the caller of a spliced-in helper that matches on it)
+                    env[ck] = body.adt_discr[(env[('va', rv['pl']['l'])], env[('v', rv['pl']['l'])])]
                 elif ck in env:
                     del env[ck]
         t = blk['term']
